@@ -52,8 +52,9 @@ CHECKS["C25"] = dict(
     text="store/store/get histories over symbolic dialect names, SQL texts and frame contents, with enumerated table names, column lists "
          "(incl. permuted labels) and shapes: z3 decides per path that a hit implies an equal key, that the value returned equals the last "
          "result stored under it, that store and get copy, and that dirty tracks changes. Counterexamples replay on real pandas + hashlib.",
-    note="PARTIAL: content-sensitivity/collision-freedom of pandas.util.hash_pandas_object + SHA-256 is an assumption (C boundary), dtype "
-         "differences are not modelled, only the 'hit => equal key' direction is asserted, histories are 2 stores + 2 lookups.",
+    note="PARTIAL: pandas.util.hash_pandas_object + SHA-256 are assumed to be an injective function of the positional 64-bit patterns, blind to labels and "
+         "column types (C boundary); column dtypes are symbolic (int64/float64/bool) in dedicated layouts; lookups with the stored frames edited in place are "
+         "part of the histories; only the 'hit => equal key' direction is asserted; histories are 2 stores + 2 lookups. Object columns: known finding.",
     design_ref="DESIGN.md §4 C25",
 )
 
@@ -64,7 +65,8 @@ CHECKS["C13"] = dict(
          "protocol into a z3 term and compared by z3, for all operand values, with the term built from Python's own ast under the same operator "
          "table; the printed form is re-parsed and compared the same way. Solver counterexamples are confirmed by real evaluation (Pandas vs Python).",
     note="Bounded grammar (see evidence). lark runs concretely. + * / // % ** and methods are uninterpreted non-associative functions so that "
-         "regrouping is visible; and/or/not only over boolean operands. Trusted: z3, the ast->term and walker->term translations (same table).",
+         "regrouping is visible; comparisons are False on operands flagged by an uninterpreted is_nan predicate (so 'not a < b' and 'a >= b' differ); "
+         "and/or/not only over boolean operands. Trusted: z3, the ast->term and walker->term translations (same table).",
     design_ref="DESIGN.md §4 C13",
     engine="z3",
 )
@@ -100,7 +102,7 @@ _tv("C09", "project / windowed extend on each backend against a reference writte
     "DESIGN.md §4 C09")
 _tv("C16", "natural_join of every type and key specification on each backend against a reference join from the SQL standard over symbolic tables with duplicate "
     "and null keys; z3 decides equality per structural path.",
-    "translation validation against a reference join (z3 per-path equality): real _natural_join_step over the model, SQLite right/full emulation text, generic SQL under the PostgreSQL model",
+    "translation validation against a reference join (z3 per-path equality): real _natural_join_step over the model, SQLite right/full emulation text, generic SQL under the PostgreSQL model, the Polars executor over the polars model (may raise)",
     "DESIGN.md §4 C16")
 _tv("C27", "Ordered window functions for 0-2 partition columns and 1-2 order columns with every reversal pattern on each backend against an order-free reference "
     "(position = number of partition mates at or before the row) under the total-order premise, also with the window step directly after an extend that overwrites or "
@@ -123,14 +125,16 @@ _tv("C10", "Perturbation: the same backend on symbolic tables that share the cel
     "restricted inputs. Backends: Pandas executor over the model, SQLite SQL text.",
     "relational (2-safety) symbolic execution: shared vs independent symbolic cells, z3 per-path equality", "DESIGN.md §4 C10")
 _tv("C18", "sem(P)(T) versus sem(P)(row-permuted T) and sem(P)(T with a non-default / duplicate / RangeIndex-offset index) on the same backend over symbolic "
-    "tables; z3 decides multiset equality (sequence equality after order_rows) per structural path; index labels and label alignment are modelled.",
+    "tables; z3 decides multiset equality (sequence equality after order_rows) per structural path; index labels and label alignment are modelled; "
+    "order_rows / limit chains are also decided against the row-count oracle min(limit, rows).",
     "relational symbolic execution under input permutation / re-indexing (z3 per-path equality)", "DESIGN.md §4 C18")
 CHECKS["C19"] = dict(
     category="other",
     technique="path-exhaustive symbolic execution of the real Pandas executor on caller-owned model frames with in-place-API tracking; second evaluation compared by z3",
     text="On every solver-feasible structural path of the real Pandas executor (over the pandas model) no in-place API touches a caller-owned frame object, and "
          "evaluating the same pipeline object twice on the same frames gives equal tables (z3, all cell values) with unchanged pipeline text; to_sql twice is "
-         "identical. Counterexamples are replayed on real pandas comparing values, dtypes, columns and index.",
+         "identical. The eager Polars adapter runs the same way over the polars stand-in on caller-owned frames. Counterexamples are replayed on real "
+         "pandas / polars comparing values, dtypes, columns and index.",
     note="Bounded programs/rows (see evidence). Mutation tracking is part of the pandas model: an unmodelled in-place API raises Unmodelled (counted). "
          "dtypes are compared on real replay only. Trusted: z3, forksym, the pandas model.",
     design_ref="DESIGN.md §4 C19", engine="forksym+z3 over sympd model")
